@@ -80,6 +80,17 @@ def _scenarios(r, p):
             cur["metadata"]["ownerReferences"] = [{"apiVersion": "v1", "kind": "Other", "name": "o9", "uid": "uid-foreign-9"}]
         return cur
 
+    def deco_stale_parent(cur):
+        """the parent was deleted and re-created under the same name: its old reference (same apiVersion / kind /
+        name, another uid) is still listed; ours has to be added (the check is by uid)"""
+        import koreo_util as ku
+
+        cur = deco(cur)
+        if cur is not None and isinstance(cur.get("metadata"), dict) and "ownerReferences" in cur["metadata"]:
+            stale = dict(copy.deepcopy(ku.OWNER_REF), uid="uid-parent-before-recreation")
+            cur["metadata"]["ownerReferences"] = [stale]
+        return cur
+
     if not p.get("createEnabled", True):      # may not create: the object is provisioned elsewhere
         return rf45.synth_stored(p), [deco, deco_co_owned if r.random() < 0.3 else deco, None]
     c = r.random()
@@ -89,8 +100,10 @@ def _scenarios(r, p):
         return None, [None, None, deco]
     if c < 0.85:
         return None, [None, deco_co_owned, deco_co_owned, None]
-    if c < 0.93:
+    if c < 0.90:
         return None, [None, deco_foreign_only, None, None]
+    if c < 0.95:
+        return None, [None, deco_stale_parent, None, None]
     return None, [None, deco_drop_owner, None]
 
 
